@@ -937,8 +937,11 @@ pub fn run(task: &str) -> Option<EvalResult> {
         "paths_ground" => Some(crate::paths::paths_ground()),
         "merkle_ground" => Some(crate::merkle::merkle_ground(false)),
         "merkle_ground:thorough" => Some(crate::merkle::merkle_ground(true)),
+        "time_locks_ground" => Some(crate::t_time_locks::time_locks_ground(false)),
+        "time_locks_ground:thorough" => Some(crate::t_time_locks::time_locks_ground(true)),
         "tree_hash_ground" => Some(crate::t_tree_hash::tree_hash_ground()),
         "curry_ground" => Some(crate::t_tree_hash::curry_ground()),
+        "dedup_ground" => Some(crate::dedup::dedup_ground()),
         "roundtrip_ground" => Some(crate::roundtrip::roundtrip_ground(false)),
         "roundtrip_ground:thorough" => Some(crate::roundtrip::roundtrip_ground(true)),
         "pos_v2_hash" => Some(pos_v2_hash()),
